@@ -228,6 +228,14 @@ def parseForest : Nat → List String → Option (Forest × List String)
       | some (rest, r'') => some (.insert k (insertAff b s i cs.x cs.y) [] blk rest, r'')
       | none => none
     | _, _, _, _, _, _ => none
+  -- INSERT in an OCS with the axes ux uy uz: K key ux uy uz base scale co,si insert F(block) F(rest)
+  | f + 1, "K" :: k :: ux :: uy :: uz :: b :: s :: cs :: i :: r =>
+    match parseKey k, parseV3 ux, parseV3 uy, parseV3 uz, parseV3 b, parseV3 s, parseV2 cs, parseV3 i, parseForest f r with
+    | some k, some ux, some uy, some uz, some b, some s, some cs, some i, some (blk, r') =>
+      match parseForest f r' with
+      | some (rest, r'') => some (.insert k (ocsAff ux uy uz b s i cs.x cs.y) [] blk rest, r'')
+      | none => none
+    | _, _, _, _, _, _, _, _, _ => none
   -- MINSERT: G key base scale co,si insert cols,rows,colspacing,rowspacing F(block) F(rest)
   | f + 1, "G" :: k :: b :: s :: cs :: i :: g :: r =>
     match parseKey k, parseV3 b, parseV3 s, parseV2 cs, parseV3 i, parseRats g, parseForest f r with
@@ -245,6 +253,12 @@ def showKey : Option Nat → String
 
 def showEnt (e : Ent) : String :=
   showKey e.key ++ ":" ++ "&".intercalate (e.prims.map (fun q => showKey q.key ++ "=" ++ showGridBox q.box))
+
+def showCmd : Cmd → String
+  | .lineTo e => "L:" ++ showV3 e
+  | .moveTo e => "M:" ++ showV3 e
+  | .curve3To c e => "C3:" ++ showV3 c ++ ":" ++ showV3 e
+  | .curve4To c1 c2 e => "C4:" ++ showV3 c1 ++ ":" ++ showV3 c2 ++ ":" ++ showV3 e
 
 def step3 (line : String) : String :=
   match line.splitOn "|" with
@@ -271,14 +285,37 @@ def step3 (line : String) : String :=
           Gen.BBoxKernels.quadControl2 p0.y p1.y p2.y, Gen.BBoxKernels.quadControl2 p0.z p1.z p2.z⟩ p2
       showGridBox (quadBBox tolReal ratSqrt p0 p1 p2) ++ ";" ++ showGridBox g
     | _, _, _ => "bad-op"
+  | ["addbez4", pen, chain] => match parseV3 pen, parseList (fun s => parseList parseV3 ":" s) ";" chain with
+    | some pen, some cs =>
+      let curves := cs.filterMap (fun c => match c with | [s, c1, c2, e] => some (s, c1, c2, e) | _ => none)
+      if curves.length != cs.length then "bad-op" else
+      ";".intercalate ((addBezier4 (fun a b => a == b) (fun a b => a == b) pen curves).map showCmd)
+    | _, _ => "bad-op"
+  | ["addbez3", pen, chain] => match parseV3 pen, parseList (fun s => parseList parseV3 ":" s) ";" chain with
+    | some pen, some cs =>
+      let r := cs.foldl (fun (acc : List Cmd × V3 × Bool) c => match c with
+        | [s, c, e] => (acc.1 ++ addBezier3Step (fun a b => a == b) (fun a b => a == b) acc.2.1 s c e, e, acc.2.2)
+        | _ => (acc.1, acc.2.1, false)) ([], pen, true)
+      if r.2.2 then ";".intercalate (r.1.map showCmd) else "bad-op"
+    | _, _ => "bad-op"
   | ["primfast", kind, pts] => match parseList parseV3 ";" pts with
     | some ps =>
       -- `Primitive.bbox(fast=True)`: path primitives -> box of `control_vertices()` (`Path.box`), mesh -> box of the vertices
-      if kind = "path" then
-        match ps with
-        | p :: rest => showBox3 (Path.box stubBoxes true ⟨p, rest.map Cmd.lineTo⟩)
-        | [] => "E"
-      else showBox3 (extents3 ps)
+      let rep : PrimRep :=
+        if kind = "path" then
+          match ps with
+          | p :: rest => .path ⟨p, rest.map Cmd.lineTo⟩
+          | [] => .none
+        else if kind = "line" then
+          match ps with
+          | [a, b] => .line a b
+          | _ => .none
+        else if kind = "point" then
+          match ps with
+          | [a] => .point a
+          | _ => .none
+        else .mesh ps
+      showBox3 (rep.box stubBoxes true) ++ ";" ++ showBox3 (extents3 rep.controlPoints)
     | none => "bad-op"
   | ["inval", entries, hits, misses, keys] =>
     match parseList parseEntry "~" entries, hits.toNat?, misses.toNat?, parseList parseKey "," keys with
@@ -313,7 +350,7 @@ def step3 (line : String) : String :=
 
 def step (line : String) : String :=
   if line.startsWith "path" || line.startsWith "cubic|" || line.startsWith "quad|" || line.startsWith "tree|" ||
-      line.startsWith "sel" || line.startsWith "inval|" || line.startsWith "primfast|" then step3 line else
+      line.startsWith "sel" || line.startsWith "inval|" || line.startsWith "primfast|" || line.startsWith "addbez" then step3 line else
   match line.splitOn "|" with
   | ["pair3", a, b] => match parseBox3 a, parseBox3 b with
     | some a, some b => pair3 a b ++ ";" ++ gpair3 a b | _, _ => "bad-op"
